@@ -22,7 +22,7 @@ static json_t *edit_value(int type, int sel)
 	case 2:
 		return json_boolean(sel % 2);
 	default: {
-		static const char *v[] = {"{}", "[]", "{\"n\":[1,2]}", "[\"x\"]"};
+		static const char *v[] = {"{}", "[]", "{\"n\":[1,2]}", "[\"x\"]", "{\"r\":0.30000000000000004,\"pi\":3.141592653589793}", "[1700000000.123456,1.0000000000000002,1.7976931348623157e308]"};
 		return json_loads(v[sel % (int)ARRAY_LEN(v)], 0, NULL);
 	}
 	}
@@ -530,7 +530,7 @@ static void reuse_gen(Rng &r, Plan &p, Tier tier, uint64_t index)
 			break;
 		case 2:
 			s = Step("CONFIG");
-			s.set("what", r.range(0, 4));
+			s.set("what", r.range(0, 5));
 			s.set("val", (int64_t)r.below(8));
 			break;
 		case 3:
@@ -672,6 +672,14 @@ static void reuse_exec(Ctx &ctx)
 				if (chk)
 					jwt_checker_claim_del(chk, JWT_CLAIM_ISS);
 				break;
+			case 5:
+				// an expectation the JSON layer cannot store (not valid UTF-8): claim_set fails; reused and
+				// fresh checkers are given the very same call
+				cfg.want_iss = true;
+				cfg.iss = "Soci\xe9t\xe9";
+				if (chk)
+					jwt_checker_claim_set(chk, JWT_CLAIM_ISS, cfg.iss.c_str());
+				break;
 			case 2:
 				cfg.exp_on = s.I("val") % 4 != 0;
 				cfg.exp_leeway = s.I("val") * 10;
@@ -721,7 +729,7 @@ static void reuse_exec(Ctx &ctx)
 			std::string tok;
 			const char *tokp = NULL;
 			std::string hdr = mode == 0 ? "{\"alg\":\"HS256\",\"typ\":\"JWT\"}" : mode == 3 ? strf("{\"alg\":\"%s\"}", rsinfo->name) : "{\"alg\":\"none\"}";
-			std::string iss = cfg.want_iss ? cfg.iss : "whoever";
+			std::string iss = cfg.want_iss && cfg.iss != "Soci\xe9t\xe9" ? cfg.iss : "whoever";
 			std::string pay = strf("{\"iss\":\"%s\",\"exp\":%lld}", iss.c_str(), (long long)(now + 1000));
 			const KeyTruth *kt = mode == 0 ? K.oct.get() : mode == 3 ? K.rsa.get() : NULL;
 			const AlgInfo *ka = mode == 0 ? hs256 : mode == 3 ? rsinfo : NULL;
@@ -794,7 +802,8 @@ static void reuse_exec(Ctx &ctx)
 						   vt.msg.c_str(), kind, (long long)now));
 			// configuration must not drift
 			const char *gi = jwt_checker_claim_get(chk, JWT_CLAIM_ISS);
-			if (cfg.want_iss ? !(gi && cfg.iss == gi) : gi != NULL)
+			bool storable = cfg.iss != "Soci\xe9t\xe9";
+			if (storable && (cfg.want_iss ? !(gi && cfg.iss == gi) : gi != NULL))
 				ctx.violation("C13", "config-drift", "iss", strf("after the call the reused checker's expected iss is %s, configured %s", gi ? gi : "(null)", cfg.want_iss ? cfg.iss.c_str() : "(none)"));
 			if (cfg.cbmode && jwt_checker_getctx(chk) != &pc_long)
 				ctx.violation("C13", "config-drift", "ctx", "jwt_checker_getctx changed");
